@@ -183,7 +183,8 @@ class extract_visitor(NodeVisitor):
         ln, col = start
         stars = False
         while ln <= min(node.end_lineno, len(lines)):  # type: ignore[attr-defined]
-            code = lines[ln - 1].split('#', 1)[0].rstrip()
+            # (only behind the last pair: a key may well be the string '#')
+            code = (lines[ln - 1][:col] + lines[ln - 1][col:].split('#', 1)[0]).rstrip()
             if code.endswith('\\'):
                 code = code[:-1]
             pos = code.find('**', col) if not stars else -1
